@@ -45,7 +45,9 @@ def run(ck, prog):
         "positions, int<->bit, int<->bits, string<->code, and no pair of unrelated scalars; (R13.11) the list of "
         "template-argument values handed to check_template_args has exactly one entry per written argument (only "
         "length-preserving iterator adaptors / one push per iteration), so positional binding and the surplus count "
-        "see every argument at its own position.")
+        "see every argument at its own position; (R13.12) every iteration of check_template_args' loop over the written "
+        "arguments marks a parameter as given or reports a diagnostic (today's silent `continue` for an argument without an "
+        "inferred type is a recorded finding: false \"value not specified\").")
     ck.trusted = ["reference arity table in tdq/ref.py (rows marked unsure are informational)"]
     for r, t in (("R13.1", "syntax errors come from every workspace file, paired with that file"),
                  ("R13.2", "failed lookups are reported"),
@@ -373,6 +375,7 @@ def r134(ck, prog):
     r138(ck, prog)
     r1310(ck, prog)
     r1311(ck, prog)
+    r1312(ck, prog)
     # diagnostics are filed under the file being walked: the include stack is a stack and is balanced
     from .c05 import file_stack_rule
     ck.rule("R13.9", "diagnostics are attributed to the file being walked (include stack balanced, a real stack)")
@@ -479,6 +482,81 @@ def r1311(ck, prog):
     # the consumer binds by position: check_template_args must index the parameters with the position of the entry
     cb = prog.body("ide::index::check_template_args")
     ck.anchor(cb is not None, "check_template_args not found")
+
+
+
+def r1312(ck, prog):
+    """a template argument that is written is never reported as missing: in check_template_args every iteration of the
+    loop over the written arguments either marks a parameter as given (removes it from the set the "value not specified"
+    diagnostics are produced from) or reports a diagnostic of its own. An iteration that passes an argument over silently
+    leaves its parameter in that set, and a required parameter is then reported as not specified although it is.
+    Not counted as silent: the None arm of a positional look-up `template_args.get(idx)` - an argument beyond the last
+    parameter is a surplus argument, reported by the count guard in front of the loop (obligation surplus-guard; R13.11
+    keeps the count exact)."""
+    ck.rule("R13.12", "every written template argument marks its parameter as given or is diagnosed")
+    b = prog.body("ide::index::check_template_args")
+    ck.anchor(b is not None, "check_template_args not found")
+    tests = brackets.option_tests(b, prog)
+    n = 0
+    for h, bl in cfg.loops(b):
+        inl = set(bl)
+        marks = {u for u in bl if b.term(u)["k"] == "call" and re.search(r"Hash(Set|Map)::<.*>::remove$|BTree(Set|Map)::<.*>::remove$",
+                                                                         Body.callee(b.term(u)) or "")}
+        if not marks:
+            continue
+        errs = {u for u in bl if b.term(u)["k"] == "call" and (Body.callee(b.term(u)) or "").endswith("IndexCtx::<'a>::error")}
+        pruned = {(t["bb"], t["none_target"]) for t in tests
+                  if t["bb"] in inl and re.search(r"(slice::<impl \[T\]>|Vec::<T(, A)?>)::get$", t["src_callee"] or "")}
+        avoid = marks | errs
+
+        def reach(src, dst, include_src):
+            seen_, todo = set(), [src]
+            first = True
+            while todo:
+                u = todo.pop()
+                if u == dst and not (first and not include_src):
+                    return True
+                first = False
+                if u in seen_ and u != src:
+                    continue
+                seen_.add(u)
+                if u in avoid or u not in inl:
+                    continue
+                for v in b.succ(u):
+                    if (u, v) in pruned or b.is_cleanup(v):
+                        continue
+                    if v == dst:
+                        return True
+                    if v not in seen_:
+                        todo.append(v)
+            return False
+        for t in tests:
+            if t["bb"] not in inl or not re.search(r"Iterator>?::next$", t["src_callee"] or ""):
+                continue
+            n += 1
+            st = t["some_target"]
+            silent = st not in avoid and reach(st, h, True)
+            # the silent region (blocks on some silent path) is named by the calls it contains, so that a second, different
+            # silent path is not mistaken for the recorded one
+            region = []
+            if silent:
+                for u in sorted(inl - avoid - {h}):
+                    if (u == st or reach(st, u, True)) and reach(u, h, False):
+                        region.append(u)
+            calls_ = sorted({(Body.callee(b.term(u)) or "?").rsplit("::", 1)[-1] for u in region if b.term(u)["k"] == "call"} - {"drop", "drop_in_place"})
+            key = "given-marks:check_template_args" if not calls_ else "given-marks:check_template_args:via:" + "+".join(calls_)
+            ck.ob("R13.12", key, not silent,
+                  "every iteration marks a parameter as given or reports a diagnostic",
+                  msg="check_template_args passes a written template argument over without marking its parameter as given and "
+                      "without a diagnostic (an argument whose type cannot be inferred, e.g. `Base<!cond(..)>`): a required "
+                      "parameter is then reported as \"value not specified\" although the value is there [%s]" % b.where(t["bb"]))
+            if pruned:
+                allerr = {u for u in range(len(b.blocks)) if b.term(u)["k"] == "call" and (Body.callee(b.term(u)) or "").endswith("IndexCtx::<'a>::error")}
+                before = any(u not in inl and cfg.path_exists(b, 0, lambda v, u=u: v == u, avoid=frozenset({h}), include_src=True) for u in allerr)
+                ck.ob("R13.12", "surplus-guard", before, "surplus arguments are diagnosed in front of the loop", nontrivial=False,
+                      msg="check_template_args looks parameters up by position with get(idx) but no diagnostic in front of the loop "
+                          "reports arguments beyond the last parameter")
+    ck.floor("R13.12", "loops over the written arguments", n, 1)
 
 
 def r138(ck, prog):
